@@ -268,8 +268,14 @@ def drive(modname, funcname, cases, extra=None, procs=NCPU, chunk=200):
     try:
         with cf.ProcessPoolExecutor(min(procs, len(chunks)), mp_context=ctx,
                                     initializer=_limit_worker_memory) as pool:
-            for part in pool.map(_drive_chunk, chunks):
-                out.extend(part)
+            try:
+                for part in pool.map(_drive_chunk, chunks,
+                                     timeout=int(os.environ.get("VERIF_DRIVE_TIMEOUT", "2400"))):
+                    out.extend(part)
+            except cf.TimeoutError as exc:
+                for p in list(pool._processes.values()):   # a case that computes for ever
+                    p.kill()
+                raise MachineryError(f"driving {modname}.{funcname} timed out") from exc
     except BrokenProcessPool as exc:
         raise MachineryError(f"a driving process of {modname}.{funcname} died ({exc})") from exc
     log(f"  drove {len(cases)} case(s) through {modname}.{funcname} in {time.time() - t0:.1f}s")
